@@ -189,7 +189,7 @@ def main(tier):
                       "from Cubical.tla / Persistence.tla; plus recorded random complexes (<= 4 directions, sides <= 5, <= %d "
                       "cells) accepted by Trace_Cubical.tla.  distinct = valued cases with >= 2 distinct input values or a "
                       "periodic direction + distinct recorded complexes"
-                      % ((("3", "") if tier == "quick" else ("4", " (and all assignments over {0,1,+inf} for 5-6 inputs, p in {2,3})")) + (maxcells,)))
+                      % ((("3", "") if tier == "quick" else ("4", " (and all assignments over {0,1,+inf} for 5-6 inputs)")) + (maxcells,)))
     ev.assumptions = [
         "the handle of a cell is its bitmap position (part of the API); input lists in Fortran order (first direction fastest)",
         "periodic sides >= 2 (a periodic side of 1 identifies the two faces of a cell: excluded); a side of 0 top cells only "
